@@ -15,7 +15,7 @@ COMMON_ASSUME = [
 
 PROPS = {
     "C10": dict(runs=[oph("^Harness_C10_")],
-                bounds=["one message from an arbitrary symbolic pre-state (inductive step)", "amounts < 2^128", "strings opaque (any length)"],
+                bounds=["one message from an arbitrary symbolic pre-state (inductive step); frame/freshness harnesses: every one of the 12 L1 messages", "amounts < 2^128", "strings opaque (any length)", "fewer than 2^62 bridge ids handed out (counter does not wrap)"],
                 outside=["amounts >= 2^128"], assumptions=COMMON_ASSUME),
     "C01": dict(runs=[oph("^Harness_C01_")],
                 bounds=["one arbitrary L1 message (12 kinds, all fields symbolic) from an arbitrary symbolic pre-state", "iterated stores (OutputProposals, BatchInfos): 1 entry quick / 2 thorough in the pre-state", "proof depth 0..1", "registration fee: at most one coin"],
@@ -26,6 +26,11 @@ PROPS = {
                 bounds=["proof depth 0..2 quick / 0..4 thorough", "non-standard lengths {0,2} for version, {31,33} for roots/hash/proof item"], outside=["deeper proofs", "collision resistance of sha3 (hash is an uninterpreted function)"], assumptions=COMMON_ASSUME),
     "C05": dict(runs=[oph("^Harness_C05_|^Harness_C11_ProposeStep|^Harness_C03_FinalizeStep")],
                 bounds=["every int64 duration, every block/proposal time in the protobuf Timestamp range", "frame harnesses: iterated stores 1 entry quick / 2 thorough"], outside=["times outside years 1..9999"], assumptions=COMMON_ASSUME + ["block time is non-decreasing"]),
+    "C11": dict(runs=[oph("^Harness_C11_")],
+                bounds=["closed-world OutputProposals store: at most 2 (quick) / 3 (thorough) outputs in the pre-state, over all bridges", "delete loop unwinding 8"],
+                outside=["logs longer than the slot bound (the step argument is per operation)"], assumptions=COMMON_ASSUME + ["block time is non-decreasing and not before stored proposal times"]),
+    "C12": dict(runs=[oph("^Harness_C12_L1_")],
+                bounds=["every one of the 8 permissioned L1 messages, all fields symbolic, arbitrary pre-state"], outside=[], assumptions=COMMON_ASSUME),
     "C17": dict(runs=[dict(pkg="./x/ophost/types", overlay="harness/C17", pkgname="types", harness="^Harness_C17_", native=["rt.go.tmpl", "types_native.go.tmpl"])],
                 bounds=["proof depth 0..2 (quick) / 0..4 (thorough)", "three memory layouts of the proof list", "all 64-bit field values, opaque strings of any length"],
                 outside=["proofs deeper than 4"], assumptions=["sha3 is an uninterpreted function: equality of digests is decided by equality of preimage bytes", "address.Module is an uninterpreted injective function"]),
